@@ -155,6 +155,7 @@ class Opts(object):
         self.common_names_p = 0.3        # chance per world that names come from a tiny fixed pool: files handled one after another
                                          # in a process then share object paths, as files from one measurement setup do
         self.long_run_p = 0.0            # chance per world of 100-260 consecutive metadata-less segments (a streamed file)
+        self.very_long_run_p = 0.0       # ... of 1000-1300 of them (a fragmented log; deeper than any per-segment recursion)
         self.__dict__.update(kw)
 
 
@@ -166,7 +167,7 @@ def deepen(o, tier):
     o.max_channels += 1
     o.max_count = min(24, o.max_count * 2)
     o.max_chunks += 2
-    for k in ('many_segments_p', 'long_run_p', 'huge_p', 'big_count_p'):
+    for k in ('many_segments_p', 'long_run_p', 'very_long_run_p', 'huge_p', 'big_count_p'):
         setattr(o, k, min(0.2, getattr(o, k) * 2))
     return o
 
@@ -226,6 +227,8 @@ def gen_spec(rng, o):
         nseg = rng.randint(2, 4)
         run_at = rng.randint(1, nseg - 1)
         run_len = rng.randint(100, 260)
+        if o.very_long_run_p and rng.random() < o.very_long_run_p / o.long_run_p:
+            run_len = rng.randint(1000, 1300)
         nseg += run_len
     common_count = rng.randint(1, o.max_count)
     spec = {'version': o.version or rng.choice([4712, 4713]), 'names': names, 'segments': []}
